@@ -65,7 +65,9 @@ func extAlias(i int) string { return fmt.Sprintf("ext%d", i) }
 func extLabel(i int) string { return extPath(i) + "//:lib.dawn" }
 
 // extDepVersion: the version of project j that version v of project i requires.
-func extDepVersion(i, v, j int) int { return (v + i + j) % len(extVersions) }
+// (Not monotone in v for any pair: somewhere an older version of i requires a higher version
+// of j than a newer one does, so the requirements of superseded versions matter.)
+func extDepVersion(i, v, j int) int { return (2*v + i + j) % len(extVersions) }
 
 // extSelected is the model's build list: per required project the selected version index
 // (the maximum any selected requirer asks for), -1 if nothing requires it.
